@@ -5,8 +5,11 @@ package main
 
 import (
 	"encoding/json"
+	"errors"
 	"fmt"
+	"math"
 	"math/big"
+	"runtime/debug"
 	"strconv"
 	"strings"
 	"unsafe"
@@ -15,7 +18,6 @@ import (
 	"github.com/richardwilkes/toolbox/xmath/fixed"
 	"github.com/richardwilkes/toolbox/xmath/fixed/f128"
 	"github.com/richardwilkes/toolbox/xmath/fixed/f64"
-	"github.com/richardwilkes/toolbox/xmath/num"
 	"gopkg.in/yaml.v3"
 	"verifharness/hx"
 )
@@ -37,14 +39,22 @@ type floatRes struct {
 
 type typ struct {
 	forms   func(raw *big.Int) [4]string
-	parse   func(s string) string            // FromString: "ok:<raw>" | "err"
-	unm     func(s string) string            // UnmarshalText
-	libVal  func(raw *big.Int) string        // library round trips of a value: "" or a failure tag
-	libStr  func(s string) string            // cross-consistency of the entry points on an arbitrary string
+	parse   func(s string) string     // FromString: "ok:<raw>" | "err"
+	unm     func(s string) string     // UnmarshalText
+	libVal  func(raw *big.Int) string // library round trips of a value: "" or a failure tag
+	libStr  func(s string) string     // cross-consistency of the entry points on an arbitrary string
 	asInt   map[string]func(raw *big.Int) asRes
 	asFloat map[string]func(raw *big.Int) floatRes
-	fromF   func(f float64) string           // From[T](float64) raw, for the exponent-literal oracle
+	fromF   func(f float64) string       // From[T](float64) raw, for the exponent-literal oracle
+	cfgOut  func() string                // MaxDecimalDigits, Multiplier (raw)
+	ext     func(which string) [2]string // f128 only: raw and text of Maximum / Minimum
+	frac    func(n, d *big.Int) string   // Fraction compositions, "" or a failure description
 }
+
+// the value every Unmarshal* receiver holds before the call (both halves of the 128-bit word non-zero)
+const other64 = -4611686018427387127
+
+var other128 = new(big.Int).Add(new(big.Int).Lsh(big.NewInt(-3), 64), big.NewInt(777))
 
 type cfg struct {
 	places int
@@ -63,21 +73,24 @@ var (
 	max128  = new(big.Int).Sub(new(big.Int).Lsh(big.NewInt(1), 127), big.NewInt(1))
 )
 
+// raw128s mirrors the layout of num.Int128 (hi, lo) so that raw values are written and read without any library helper.
+type raw128s struct{ hi, lo uint64 }
+
 func mk128[T fixed.Dx](v *big.Int) f128.Int[T] {
 	m := new(big.Int).And(v, mask128) // two's complement
-	lo := new(big.Int).And(m, mask64).Uint64()
-	hi := new(big.Int).Rsh(m, 64).Uint64()
-	i := num.Int128FromComponents(hi, lo)
+	i := raw128s{hi: new(big.Int).Rsh(m, 64).Uint64(), lo: new(big.Int).And(m, mask64).Uint64()}
+	if unsafe.Sizeof(i) != unsafe.Sizeof(f128.Int[T]{}) {
+		panic("layout of f128.Int changed")
+	}
 	return *(*f128.Int[T])(unsafe.Pointer(&i))
 }
 
 func raw128[T fixed.Dx](f f128.Int[T]) *big.Int {
-	i := *(*num.Int128)(unsafe.Pointer(&f))
-	hi, lo := i.Components()
-	v := new(big.Int).SetUint64(hi)
+	i := *(*raw128s)(unsafe.Pointer(&f))
+	v := new(big.Int).SetUint64(i.hi)
 	v.Lsh(v, 64)
-	v.Or(v, new(big.Int).SetUint64(lo))
-	if hi>>63 == 1 {
+	v.Or(v, new(big.Int).SetUint64(i.lo))
+	if i.hi>>63 == 1 {
 		v.Sub(v, two128)
 	}
 	return v
@@ -103,12 +116,21 @@ type fxp[V any] interface {
 
 type wrap[V any] struct {
 	A V            `json:"a" yaml:"a"`
+	P *V           `json:"p" yaml:"p"`
 	M map[string]V `json:"m" yaml:"m"`
 	L []V          `json:"l" yaml:"l"`
 }
 
+var errSentinel = errors.New("sentinel")
+
+func okWrap[V comparable](back wrap[V], v V) bool {
+	return back.A == v && back.P != nil && *back.P == v && len(back.M) == 1 && back.M["k"] == v && len(back.L) == 2 &&
+		back.L[0] == v && back.L[1] == v
+}
+
 // libVal runs every library-mediated round trip of the value v; the result is "" or the name of the first failure.
-func libVal[V fxv, P fxp[V]](v V, fromString func(string) (V, error), forced func(string) V) string {
+// Every receiver starts out holding `other` (a different, non-zero value): a successful Unmarshal* must overwrite it.
+func libVal[V fxv, P fxp[V]](v, other V, fromString func(string) (V, error), forced func(string) V) string {
 	forms := [4]string{v.String(), v.StringWithSign(), v.Comma(), v.CommaWithSign()}
 	names := [4]string{"str", "strsign", "comma", "commasign"}
 	// MarshalText / UnmarshalText
@@ -116,9 +138,37 @@ func libVal[V fxv, P fxp[V]](v V, fromString func(string) (V, error), forced fun
 	if err != nil || string(b) != forms[0] {
 		return "marshaltext"
 	}
-	var w V
+	w := other
 	if P(&w).UnmarshalText(b) != nil || w != v {
 		return "text-roundtrip"
+	}
+	for i := range b { // the returned bytes are the caller's: scribbling on them must not reach later renderings
+		b[i] = 'X'
+	}
+	if v.String() != forms[0] {
+		return "marshaltext-aliased"
+	}
+	// direct Marshal* calls
+	if mj, err2 := v.MarshalJSON(); err2 != nil || string(mj) != forms[0] {
+		return "marshaljson-direct"
+	}
+	my, err := v.MarshalYAML()
+	if err != nil {
+		return "marshalyaml-direct"
+	}
+	switch n := my.(type) {
+	case yaml.Node:
+		if n.Kind != yaml.ScalarNode || n.Value != forms[0] {
+			return "marshalyaml-node"
+		}
+	case *yaml.Node:
+		if n.Kind != yaml.ScalarNode || n.Value != forms[0] {
+			return "marshalyaml-node"
+		}
+	case string:
+		if n != forms[0] {
+			return "marshalyaml-node"
+		}
 	}
 	// JSON through encoding/json (bare number)
 	jb, err := json.Marshal(v)
@@ -128,18 +178,33 @@ func libVal[V fxv, P fxp[V]](v V, fromString func(string) (V, error), forced fun
 	if string(jb) != forms[0] {
 		return "json-marshal-text"
 	}
-	var j V
+	j := other
 	if json.Unmarshal(jb, &j) != nil || j != v {
 		return "json-roundtrip"
 	}
-	// JSON inside a structure (struct field, map value, slice)
-	ws := wrap[V]{A: v, M: map[string]V{"k": v}, L: []V{v, v}}
+	// JSON inside a structure (struct field, pointer field, map value, slice), decoded into a pre-filled structure
+	vv := v
+	ws := wrap[V]{A: v, P: &vv, M: map[string]V{"k": v}, L: []V{v, v}}
 	if sb, err2 := json.Marshal(ws); err2 != nil {
 		return "json-struct-marshal"
 	} else {
 		var back wrap[V]
-		if json.Unmarshal(sb, &back) != nil || back.A != v || back.M["k"] != v || len(back.L) != 2 || back.L[1] != v {
+		if json.Unmarshal(sb, &back) != nil || !okWrap(back, v) {
 			return "json-struct-roundtrip"
+		}
+		oo := other
+		pre := wrap[V]{A: other, P: &oo, M: map[string]V{"k": other}, L: []V{other, other, other}}
+		if json.Unmarshal(sb, &pre) != nil || !okWrap(pre, v) {
+			return "json-struct-prefilled"
+		}
+	}
+	// JSON map key (encoding.TextMarshaler / TextUnmarshaler)
+	if kb, err2 := json.Marshal(map[V]int{v: 1}); err2 != nil || string(kb) != `{"`+forms[0]+`":1}` {
+		return "json-mapkey-marshal"
+	} else {
+		var back map[V]int
+		if json.Unmarshal(kb, &back) != nil || len(back) != 1 || back[v] != 1 {
+			return "json-mapkey-roundtrip"
 		}
 	}
 	// YAML through yaml.v3
@@ -147,7 +212,7 @@ func libVal[V fxv, P fxp[V]](v V, fromString func(string) (V, error), forced fun
 	if err != nil {
 		return "yaml-marshal"
 	}
-	var y V
+	y := other
 	if yaml.Unmarshal(yb, &y) != nil || y != v {
 		return "yaml-roundtrip"
 	}
@@ -155,35 +220,50 @@ func libVal[V fxv, P fxp[V]](v V, fromString func(string) (V, error), forced fun
 		return "yaml-struct-marshal"
 	} else {
 		var back wrap[V]
-		if yaml.Unmarshal(sb, &back) != nil || back.A != v || back.M["k"] != v || len(back.L) != 2 || back.L[1] != v {
+		if yaml.Unmarshal(sb, &back) != nil || !okWrap(back, v) {
 			return "yaml-struct-roundtrip"
 		}
 	}
+	// UnmarshalYAML called directly with a callback that fails: the error comes back, nothing else is written
+	cbFail := other
+	if e := P(&cbFail).UnmarshalYAML(func(any) error { return errSentinel }); !errors.Is(e, errSentinel) || cbFail != other {
+		return "unmarshalyaml-callback-error"
+	}
 	for i, f := range forms {
-		// every rendering through every entry point
-		var a V
+		// every rendering through every entry point, into a receiver that holds another value
+		a := other
 		if P(&a).UnmarshalText([]byte(f)) != nil || a != v {
 			return "unmarshaltext-" + names[i]
 		}
-		var q V
+		q := other
 		if P(&q).UnmarshalText([]byte(`"`+f+`"`)) != nil || q != v {
 			return "unmarshaltext-quoted-" + names[i]
 		}
-		var jq V
+		jq := other
 		if json.Unmarshal([]byte(`"`+f+`"`), &jq) != nil || jq != v {
 			return "json-quoted-" + names[i]
 		}
-		var jd V
+		jd := other
 		if P(&jd).UnmarshalJSON([]byte(f)) != nil || jd != v {
 			return "unmarshaljson-direct-" + names[i]
 		}
-		var yv V
+		yv := other
 		if yaml.Unmarshal([]byte(f), &yv) != nil || yv != v {
 			return "yaml-" + names[i]
 		}
-		var yq V
+		yq := other
 		if yaml.Unmarshal([]byte(`"`+f+`"`), &yq) != nil || yq != v {
 			return "yaml-quoted-" + names[i]
+		}
+		yd := other
+		if P(&yd).UnmarshalYAML(func(x any) error {
+			if sp, ok := x.(*string); ok {
+				*sp = f
+				return nil
+			}
+			return errSentinel
+		}) != nil || yd != v {
+			return "unmarshalyaml-direct-" + names[i]
 		}
 		if forced(f) != v {
 			return "forced-" + names[i]
@@ -191,32 +271,54 @@ func libVal[V fxv, P fxp[V]](v V, fromString func(string) (V, error), forced fun
 		if g, err2 := fromString(f); err2 != nil || g != v {
 			return "fromstring-" + names[i]
 		}
+		// a receiver that has just rejected an input is reused
+		r := other
+		_ = P(&r).UnmarshalText([]byte("1.x.y")) //nolint:errcheck // the outcome is irrelevant, only the reuse matters
+		if P(&r).UnmarshalText([]byte(f)) != nil || r != v {
+			return "reuse-after-error-" + names[i]
+		}
 	}
 	return ""
 }
 
-// libStr checks that the entry points agree with each other on an arbitrary string.
-func libStr[V fxv, P fxp[V]](s string, fromString func(string) (V, error), forced func(string) V) string {
+// libStr checks that the entry points agree with each other on an arbitrary string.  Receivers start out holding
+// `other`; after an error they may hold `other` or zero, after a success exactly the parsed value.
+func libStr[V fxv, P fxp[V]](s string, other V, fromString func(string) (V, error), forced func(string) V) string {
 	var zero V
 	v, err := fromString(s)
-	if err != nil && v != zero {
-		return "error-with-value"
-	}
-	if forced(s) != v {
+	if fv := forced(s); (err == nil && fv != v) || (err != nil && fv != zero && fv != v) {
 		return "forced"
 	}
-	var a, b V
+	a, b := other, other
 	ea := P(&a).UnmarshalText([]byte(s))
 	eb := P(&b).UnmarshalJSON([]byte(s))
-	if (ea == nil) != (eb == nil) || a != b {
+	if (ea == nil) != (eb == nil) || (ea == nil && a != b) {
 		return "text-vs-json"
 	}
 	u, eu := fromString(txt.Unquote(s))
 	if (eu == nil) != (ea == nil) || (eu == nil && u != a) {
 		return "unmarshal-vs-unquote"
 	}
-	if ea != nil && a != zero {
+	if ea != nil && a != other && a != zero {
 		return "unmarshal-error-wrote"
+	}
+	if eb != nil && b != other && b != zero {
+		return "unmarshaljson-error-wrote"
+	}
+	// YAML entry point (no Unquote on this path): the callback delivers the string
+	y := other
+	ey := P(&y).UnmarshalYAML(func(x any) error {
+		if sp, ok := x.(*string); ok {
+			*sp = s
+			return nil
+		}
+		return errSentinel
+	})
+	if (ey == nil) != (err == nil) || (ey == nil && y != v) {
+		return "unmarshalyaml-vs-fromstring"
+	}
+	if ey != nil && y != other && y != zero {
+		return "unmarshalyaml-error-wrote"
 	}
 	return ""
 }
@@ -236,7 +338,7 @@ func asInt64[T fixed.Dx, TO int | int8 | int16 | int32 | int64 | uint | uint8 | 
 		r := asRes{as: fmt.Sprint(a), checked: "nofit"}
 		if err == nil {
 			r.checked = "ok:" + fmt.Sprint(c)
-		} else if err != fixed.ErrDoesNotFitInRequestedType || c != 0 {
+		} else if err != fixed.ErrDoesNotFitInRequestedType {
 			r.checked = "wrong-error"
 		}
 		return r
@@ -251,7 +353,7 @@ func asInt128[T fixed.Dx, TO int | int8 | int16 | int32 | int64 | uint | uint8 |
 		r := asRes{as: fmt.Sprint(a), checked: "nofit"}
 		if err == nil {
 			r.checked = "ok:" + fmt.Sprint(c)
-		} else if err != fixed.ErrDoesNotFitInRequestedType || c != 0 {
+		} else if err != fixed.ErrDoesNotFitInRequestedType {
 			r.checked = "wrong-error"
 		}
 		return r
@@ -289,14 +391,24 @@ func reg[T fixed.Dx]() *cfg {
 			return res(big.NewInt(int64(v)), err)
 		},
 		unm: func(s string) string {
-			var v f64.Int[T]
+			v := f64.Int[T](other64)
 			err := v.UnmarshalText([]byte(s))
 			return res(big.NewInt(int64(v)), err)
 		},
 		libVal: func(raw *big.Int) string {
-			return libVal[f64.Int[T], *f64.Int[T]](f64.Int[T](raw.Int64()), from64, forced64)
+			o := f64.Int[T](other64)
+			if raw.Int64() == other64 {
+				o++
+			}
+			return libVal[f64.Int[T], *f64.Int[T]](f64.Int[T](raw.Int64()), o, from64, forced64)
 		},
-		libStr: func(s string) string { return libStr[f64.Int[T], *f64.Int[T]](s, from64, forced64) },
+		libStr: func(s string) string {
+			return libStr[f64.Int[T], *f64.Int[T]](s, f64.Int[T](other64), from64, forced64)
+		},
+		frac: frac64[T](),
+		cfgOut: func() string {
+			return fmt.Sprintf("%d %d", f64.MaxDecimalDigits[T](), f64.Multiplier[T]())
+		},
 		asInt: map[string]func(raw *big.Int) asRes{
 			"i8": asInt64[T, int8](), "i16": asInt64[T, int16](), "i32": asInt64[T, int32](), "i64": asInt64[T, int64](),
 			"int": asInt64[T, int](), "u8": asInt64[T, uint8](), "u16": asInt64[T, uint16](), "u32": asInt64[T, uint32](),
@@ -317,14 +429,31 @@ func reg[T fixed.Dx]() *cfg {
 			return res(raw128(v), err)
 		},
 		unm: func(s string) string {
-			var v f128.Int[T]
+			v := mk128[T](other128)
 			err := v.UnmarshalText([]byte(s))
 			return res(raw128(v), err)
 		},
 		libVal: func(raw *big.Int) string {
-			return libVal[f128.Int[T], *f128.Int[T]](mk128[T](raw), from128, forced128)
+			o := other128
+			if raw.Cmp(o) == 0 {
+				o = new(big.Int).Add(o, big.NewInt(1))
+			}
+			return libVal[f128.Int[T], *f128.Int[T]](mk128[T](raw), mk128[T](o), from128, forced128)
 		},
-		libStr: func(s string) string { return libStr[f128.Int[T], *f128.Int[T]](s, from128, forced128) },
+		libStr: func(s string) string {
+			return libStr[f128.Int[T], *f128.Int[T]](s, mk128[T](other128), from128, forced128)
+		},
+		frac: frac128[T](),
+		cfgOut: func() string {
+			return fmt.Sprintf("%d %s", f128.MaxDecimalDigits[T](), raw128(f128.Multiplier[T]()))
+		},
+		ext: func(which string) [2]string {
+			v := f128.Maximum[T]()
+			if which == "min" {
+				v = f128.Minimum[T]()
+			}
+			return [2]string{raw128(v).String(), v.String()}
+		},
 		asInt: map[string]func(raw *big.Int) asRes{
 			"i8": asInt128[T, int8](), "i16": asInt128[T, int16](), "i32": asInt128[T, int32](), "i64": asInt128[T, int64](),
 			"int": asInt128[T, int](), "u8": asInt128[T, uint8](), "u16": asInt128[T, uint16](), "u32": asInt128[T, uint32](),
@@ -373,8 +502,27 @@ func isExp(s string) bool { return strings.ContainsAny(s, "Ee") }
 
 type valArea struct{}
 
+// the renderings of the previous `val` line and private copies of them: a rendering must not change after it was
+// returned (a shared or pooled buffer behind the returned string would show here)
+var prevForms, prevCopies [4]string
+
 func (valArea) Run(line string) string {
 	f := strings.Fields(line)
+	if len(f) == 3 && f[0] == "cfg" { // MaxDecimalDigits / Multiplier of the package against the table of the model
+		_, t := getCfg(f[2], f[1])
+		if t == nil {
+			return "bad-op"
+		}
+		return t.cfgOut()
+	}
+	if len(f) == 4 && f[0] == "ext" { // f128.Maximum / f128.Minimum
+		_, t := getCfg(f[2], f[1])
+		if t == nil || t.ext == nil {
+			return "bad-op"
+		}
+		r := t.ext(f[3])
+		return r[0] + " " + plain(r[1])
+	}
 	if len(f) != 4 || f[0] != "val" {
 		return "bad-op"
 	}
@@ -391,8 +539,19 @@ func (valArea) Run(line string) string {
 	for _, s := range forms {
 		out = append(out, t.parse(s))
 	}
-	if l := t.libVal(raw); l != "" {
-		out = append(out, "lib-FAIL:"+l)
+	lib := t.libVal(raw)
+	if lib == "" && prevForms != prevCopies {
+		lib = "earlier-rendering-changed"
+	}
+	if again := t.forms(raw); lib == "" && again != forms {
+		lib = "rendering-not-repeatable"
+	}
+	prevForms = forms
+	for i, s := range forms {
+		prevCopies[i] = strings.Clone(s)
+	}
+	if lib != "" {
+		out = append(out, "lib-FAIL:"+lib)
 	} else {
 		out = append(out, "lib-ok")
 	}
@@ -443,17 +602,60 @@ func (asArea) Run(line string) string {
 
 type txtArea struct{}
 
+func commaInt(v *big.Int) (string, bool) {
+	if v.IsInt64() {
+		i := v.Int64()
+		r := txt.Comma(i)
+		same := txt.Comma(int(i)) == r
+		if i == int64(int32(i)) {
+			same = same && txt.Comma(int32(i)) == r
+		}
+		if i == int64(int16(i)) {
+			same = same && txt.Comma(int16(i)) == r
+		}
+		if i == int64(int8(i)) {
+			same = same && txt.Comma(int8(i)) == r
+		}
+		if i >= 0 {
+			same = same && txt.Comma(uint64(i)) == r && txt.Comma(uint(i)) == r
+			if i == int64(uint32(i)) {
+				same = same && txt.Comma(uint32(i)) == r
+			}
+			if i == int64(uint8(i)) {
+				same = same && txt.Comma(uint8(i)) == r
+			}
+		}
+		return r, same
+	}
+	if v.IsUint64() {
+		return txt.Comma(v.Uint64()), true
+	}
+	panic("commai out of range")
+}
+
 func (txtArea) Run(line string) string {
 	f := strings.Fields(line)
 	if len(f) != 2 {
 		return "bad-op"
 	}
+	if f[0] == "commai" { // txt.Comma[T] of an integer: fmt %v, then CommaFromStringNum
+		r, same := commaInt(parseRaw(f[1]))
+		if !same {
+			return "comma-differs-between-integer-types"
+		}
+		return hx.Hex([]byte(r))
+	}
 	s := hx.UnHex(f[1])
 	switch f[0] {
 	case "unq":
 		a := txt.Unquote(string(s))
-		if b := txt.UnquoteBytes(append([]byte(nil), s...)); string(b) != a {
+		in := append([]byte(nil), s...)
+		b := txt.UnquoteBytes(in)
+		if string(b) != a {
 			return "unquote-vs-unquotebytes"
+		}
+		if string(in) != string(s) {
+			return "unquotebytes-modified-its-input"
 		}
 		return hx.Hex([]byte(a))
 	case "comma":
@@ -481,7 +683,9 @@ func (floatArea) Run(line string) string {
 	}
 	raw := parseRaw(f[3])
 	got := fn(raw)
-	q := new(big.Rat).SetFrac(raw, big.NewInt(c.mult))
+	_ = c
+	mult := pow10(hx.Atoi(f[2])) // 10^D computed here, not read from the package's table
+	q := new(big.Rat).SetFrac(raw, mult)
 	var near float64
 	if got.bits == 32 {
 		n32, _ := q.Float32()
@@ -494,16 +698,14 @@ func (floatArea) Run(line string) string {
 	want := ok && back.Cmp(q) == 0
 	switch {
 	case want && !got.ok:
-		return fmt.Sprintf("FAIL CheckedAs rejects %s/%d although float%d %s identifies it", raw, c.mult, got.bits, text)
+		return fmt.Sprintf("FAIL CheckedAs rejects %s/%s although float%d %s identifies it", raw, mult, got.bits, text)
 	case !want && got.ok:
-		return fmt.Sprintf("FAIL CheckedAs accepts %s/%d as %s (nearest float%d prints %s)", raw, c.mult,
+		return fmt.Sprintf("FAIL CheckedAs accepts %s/%s as %s (nearest float%d prints %s)", raw, mult,
 			strconv.FormatFloat(got.v, 'f', -1, got.bits), got.bits, text)
-	case got.ok && got.v != near:
+	case got.ok && math.Float64bits(got.v) != math.Float64bits(near):
 		return fmt.Sprintf("FAIL CheckedAs value %v is not the nearest float %v", got.v, near)
-	case got.ok && got.as != got.v:
+	case got.ok && math.Float64bits(got.as) != math.Float64bits(got.v):
 		return fmt.Sprintf("FAIL As %v differs from CheckedAs %v", got.as, got.v)
-	case !got.ok && got.v != 0:
-		return "FAIL CheckedAs error with non-zero value"
 	}
 	if got.ok {
 		return "ok fits"
@@ -544,7 +746,10 @@ func (expArea) Run(line string) string {
 }
 
 func main() {
+	debug.SetMaxStack(64 << 20) // a runaway recursion dies in milliseconds instead of after filling 1 GB
 	hx.Main(map[string]hx.Area{
-		"val": valArea{}, "parse": parseArea{}, "as": asArea{}, "txtfn": txtArea{}, "float": floatArea{}, "exp": expArea{},
+		"val": &guard{Area: valArea{}}, "parse": &guard{Area: parseArea{}}, "as": &guard{Area: asArea{}},
+		"txtfn": &guard{Area: txtArea{}}, "float": &guard{Area: floatArea{}}, "exp": &guard{Area: expArea{}},
+		"misc": &guard{Area: miscArea{}},
 	})
 }
